@@ -131,6 +131,51 @@ theorem reachable_partial (lex : Name → Lex) (st st' : St) (hw : WF st) (items
     obtain ⟨h1, d, sc, h2, h3⟩ := hq
     exact ⟨s, d, sc, hs, by simp [convTy, h1], resolvePath_scopeAt st' p s n _ hs h2, h3⟩
 
+/-! ## T4 — the order of items does not matter -/
+
+/- **T4 `order_indep`** (full statement): for `Shuffle items items'` (any
+   permutation of the item list at any level: top, inside modules, inside impl
+   blocks) and every `st`, `register Cfg.fixed lex st items` and
+   `register Cfg.fixed lex st items'` are both errors, or both `ok` with equal
+   tables (`decls`, `imports`, `types`, `typeNames` pointwise; scopes are named
+   by path in the model, which is the quotient by scope numbering).
+
+   Proved below (`order_indep_partial`): whenever both orders succeed, every
+   function and constant of the library resolves at its declared path, in both
+   resulting runtimes, to a declaration with the same identity (`tag`), and a
+   type's path resolves to a scope-owning declaration in both.  Missing: that
+   the two outcomes agree (ok / err), the equality of the converted signatures
+   and of the rest of the tables.  The correspondence run executes every
+   generated library on 2–24 orders (all orders of small libraries) and
+   compares outcomes and the result of every probe. -/
+
+/-- **T4, agreement of successful orders** on what every declared path means. -/
+theorem order_indep_partial (lex : Name → Lex) (st st1 st2 : St) (hw : WF st) (items items' : Items)
+    (hs : Shuffle items items')
+    (h1 : register Cfg.fixed lex st items = .ok st1) (h2 : register Cfg.fixed lex st items' = .ok st2)
+    (p : List Name) :
+    (∀ n ps r tag, ItemAt items p (.function n ps r tag) →
+      ∃ ps1 r1 ps2 r2, resolvePath st1 (p ++ [n]) = some ⟨.function ps1 r1 tag, none⟩ ∧
+        resolvePath st2 (p ++ [n]) = some ⟨.function ps2 r2 tag, none⟩) ∧
+    (∀ n ty tag, ItemAt items p (.constant n ty tag) →
+      ∃ t1 t2, resolvePath st1 (p ++ [n]) = some ⟨.const t1 tag, none⟩ ∧
+        resolvePath st2 (p ++ [n]) = some ⟨.const t2 tag, none⟩) ∧
+    (∀ n id, ItemAt items p (.type n id) →
+      ∃ d1 d2 s1 s2, resolvePath st1 (p ++ [n]) = some d1 ∧ d1.scope = some s1 ∧
+        resolvePath st2 (p ++ [n]) = some d2 ∧ d2.scope = some s2) := by
+  have a := reachable_partial lex st st1 hw items h1 p
+  have b := reachable_partial lex st st2 hw items' h2 p
+  refine ⟨fun n ps r tag hi => ?_, fun n ty tag hi => ?_, fun n id hi => ?_⟩
+  · obtain ⟨ps1, r1, _, _, e1⟩ := a.1 n ps r tag hi
+    obtain ⟨ps2, r2, _, _, e2⟩ := b.1 n ps r tag (itemAt_shuffle hs (by simp [Leaf]) hi)
+    exact ⟨ps1, r1, ps2, r2, e1, e2⟩
+  · obtain ⟨t1, _, e1⟩ := a.2.1 n ty tag hi
+    obtain ⟨t2, _, e2⟩ := b.2.1 n ty tag (itemAt_shuffle hs (by simp [Leaf]) hi)
+    exact ⟨t1, t2, e1, e2⟩
+  · obtain ⟨_, d1, s1, _, _, e1, f1⟩ := a.2.2 n id hi
+    obtain ⟨_, d2, s2, _, _, e2, f2⟩ := b.2.2 n id (itemAt_shuffle hs (by simp [Leaf]) hi)
+    exact ⟨d1, d2, s1, s2, e1, f1, e2, f2⟩
+
 /-! ## witnesses -/
 
 def lexV : Name → Lex := fun _ => ⟨some (some .ident), false, true⟩
@@ -155,6 +200,14 @@ example :
 /-- non-vacuity of T3: a function two modules deep -/
 example : ItemAt (il [.module 0 (il [.module 1 (il [fn0 2 7])]), .use [[0, 1, 2]]]) [0, 1] (fn0 2 7) :=
   .inside 0 _ (.inside 1 _ (.here _ _))
+
+/-- non-vacuity of T4: a reordering at two levels, both orders succeed -/
+example :
+    Shuffle (il [.module 0 (il [fn0 1 5, fn0 2 6]), fn0 3 7]) (il [fn0 3 7, .module 0 (il [fn0 2 6, fn0 1 5])]) :=
+  .trans (.inModule 0 _ (.swap _ _ _)) (.swap _ _ _)
+example :
+    (register Cfg.fixed lexV st0 (il [.module 0 (il [fn0 1 5, fn0 2 6]), fn0 3 7])).isOk = true ∧
+    (register Cfg.fixed lexV st0 (il [fn0 3 7, .module 0 (il [fn0 2 6, fn0 1 5])])).isOk = true := by decide
 
 /-! ## the defects of the pinned tree, refuted on the model as pinned -/
 
